@@ -3,16 +3,36 @@
 without, in the scratch worktree /tmp/seed/<PID>), run the /verif quick checks against it (applied to /repo, reverted afterwards), and keep it
 under /verif/seeded/<PID>-i/ with meta.json extended by what was run."""
 import json, os, re, shutil, subprocess, sys
-pid = sys.argv[1]
-checks = sys.argv[2:] or [pid]
+recheck = '--recheck' in sys.argv      # seeds already confirmed and kept: only re-run the checks and update meta.json
+args = [a for a in sys.argv[1:] if a != '--recheck']
+pid = args[0]
+checks = args[1:] or [pid]
 wt = f'/tmp/seed/{pid}'
 out = '/tmp/seed/out'
 env = dict(os.environ, PYTHONPATH=f'{wt}/src', VERIF_REPO=wt)
 def sh(cmd, **kw):
     p = subprocess.run(cmd, shell=True, stdout=subprocess.PIPE, stderr=subprocess.STDOUT, text=True, **kw)
     return p.returncode, p.stdout
+if recheck:
+    out = '/verif/seeded'
 for d in sorted(x for x in os.listdir(out) if re.fullmatch(re.escape(pid) + r'-\d+', x)):
     src = os.path.join(out, d)
+    if recheck:
+        patch = os.path.join(src, 'patch.diff')
+        rcp, op = sh(f'/verif/tools/try_patch.sh {patch} ' + ' '.join(checks), cwd='/verif')
+        caught = {}
+        for c in checks:
+            m = [l for l in op.splitlines() if f'property={c}' in l]
+            caught[c] = (m[0][:200] if m else 'no output: ' + op[-200:])
+        is_caught = any('VIOLATION' in v for v in caught.values())
+        meta = json.load(open(os.path.join(src, 'meta.json')))
+        if 'caught_by_check' in meta and meta.get('caught_by_check') != caught:
+            meta.setdefault('earlier_verdicts', []).append(meta['caught_by_check'])
+        meta['caught_by_check'] = caught; meta['caught'] = is_caught
+        meta.setdefault('confirmed_by_orchestrator', []).append('re-run after strengthening the check: tools/try_patch.sh patch.diff ' + ' '.join(checks) + ' -> ' + json.dumps(caught))
+        json.dump(meta, open(os.path.join(src, 'meta.json'), 'w'), indent=1)
+        print(d, 'CAUGHT' if is_caught else 'MISSED', caught)
+        continue
     patch = os.path.join(src, 'patch.diff'); demo = os.path.join(src, 'demo.py')
     if not (os.path.exists(patch) and os.path.exists(demo)):
         print(d, 'incomplete'); continue
